@@ -373,11 +373,9 @@ class JSON:
 
         # EOR messages have .nlris directly but no .announces/.withdraws
         if getattr(update_msg, 'IS_EOR', False):
-            # EOR message - use .nlris directly with original behavior
-            for nlri in update_msg.nlris:
-                nexthop_ip = getattr(nlri, 'nexthop', IP.NoNextHop)
-                nexthop_str = str(nexthop_ip) if nexthop_ip is not IP.NoNextHop else 'null'
-                plus.setdefault(nlri.family().afi_safi(), {}).setdefault(nexthop_str, []).append((nlri, nexthop_ip))
+            # an End-of-RIB announces nothing: it is reported below as { "eor": { afi, safi } }.
+            # Listing its NLRI under "announce" put `"eor": {...}` inside an array: not JSON.
+            pass
         else:
             # UpdateCollection - get nexthop from RoutedNLRI container
             for routed in update_msg.announces:
